@@ -7,6 +7,7 @@ from .. import astutil as au
 from ..tables import rule
 from . import analysis
 from .translation import Letters
+from ..carriers import local_roles, role
 
 rule("C01.a", "nodal rows: coefficients come from mapping['disp_factor'], columns from mapping.index, both through the same "
               "selector pair (type == 'd' & node == n; time_step == t); right-hand side zeros and letter count use one counter", floor=5)
@@ -171,9 +172,10 @@ def run(ctx):
             counter_names = [local for local, src in local_of.items() if src not in appends and any(
                 isinstance(st, ast.AugAssign) and au.U(st.target) == src for st in au.walk_stmts(builder.body))]
             uses = {"zeros": None, "letters": None, "shape": None}
+            pf_roles = local_roles(pf)
             for st in au.walk_stmts(pf.body):
                 if isinstance(st, ast.Assign):
-                    tn = au.terminal(st.targets[0])
+                    tn = role(st.targets[0], pf_roles)
                     if tn == "b":
                         for c in au.walk_local(st.value):
                             if isinstance(c, ast.Call) and au.method_name(c) == "zeros" and c.args:
